@@ -386,7 +386,7 @@ func (h h1) Gen(prop, tier string, r *simrt.Rng) (any, simrt.Config) {
 		failShare = simrt.Pick(r, 0.0, 0.05, 0.1, 0.5, 1.0)
 		nplans = simrt.Pick(r, 1, 7, 10, 17, 20, 33)
 	case "C16":
-		c.Metrics = true
+		c.Metrics = r.Intn(5) != 0 // iteration metrics off (f1's default without a push gateway): the setup metric is still exported
 		c.Runs = 1 + r.Intn(3)
 		c.SameScenario = r.Intn(2) == 0
 		if r.Intn(4) == 0 {
